@@ -391,6 +391,10 @@ func Returns(fn *ssa.Function) []*ssa.Return {
 	var out []*ssa.Return
 	Instrs(fn, func(in ssa.Instruction) {
 		if r, ok := in.(*ssa.Return); ok {
+			// the synthetic block that returns the named results after a recovered panic is not a return statement of the source
+			if fn.Recover != nil && r.Block() == fn.Recover {
+				return
+			}
 			out = append(out, r)
 		}
 	})
